@@ -414,7 +414,8 @@ MENU = {
 
 # documented limitations (message fragments): a program that hits one is skipped and counted, never judged
 LIMITATIONS = ["Can only rolling dataframes with known divisions", "All NaN partition encountered", "Partition size is less than",
-               "Not all divisions are known"]
+               "Not all divisions are known",
+               "attempt to get arg"]        # idxmin / idxmax of an EMPTY frame (two-step programs): pandas raises the same ValueError
 
 # call sites: menu entries that exercise ONE code path of dask share a site, so one root cause has one signature
 SITE = {}
@@ -519,15 +520,17 @@ def run_pipeline_program(prog):
             for i, op in enumerate(prog["steps"]):
                 x = apply_op(x, op, lazy=True)
                 obs = observe(x)
-                out.append({"pid": "p%d" % prog["pid"], "step": i, "opname": pipeline_site(op), "obs": obs,
+                out.append({"pid": "p%d" % prog["pid"], "step": i, "opname": pipeline_site(op, prog["steps"][:i + 1]), "obs": obs,
                             "prog": {k: prog[k] for k in ("pid", "T", "layout", "mode", "divs", "steps")}})
     except Exception as ex:  # noqa: BLE001 - includes NotImplementedError / shim errors / CallTimeout
         out.append({"skip": "pipeline step raised (%s): judged by C36" % type(ex).__name__})
     return out
 
 
-def pipeline_site(op):
+def pipeline_site(op, prefix=()):
     """Call site of a C36 pipeline step: the data-dependent-dtype expression it contains, else its operation tag."""
+    if any(C36.has_expr(o, "idx") for o in prefix):
+        return "raw-index-array"       # a comparison on a dask Index yields a dask Array (see the C36 finding of that name)
     if C36.has_expr(op, "where") or C36.has_expr(op, "mask"):
         return "i.where(b)"            # -> site where/mask(other=NaN)
     if C36.has_expr(op, "map"):
